@@ -5,6 +5,7 @@ package world
 import (
 	"github.com/buzzfeed/sso/internal/auth"
 	"github.com/buzzfeed/sso/internal/pkg/sessions"
+	"github.com/buzzfeed/sso/internal/pkg/verifpools"
 	"github.com/buzzfeed/sso/internal/pkg/validators"
 	"github.com/buzzfeed/sso/internal/proxy"
 	proxyproviders "github.com/buzzfeed/sso/internal/proxy/providers"
@@ -12,6 +13,7 @@ import (
 
 // Compiled only together with the yieldgen overlay (which adds VerifYieldHook to these packages).
 func init() {
+	resetPools = verifpools.ResetAll
 	installPauseHooks = func(h func(kind, site string, m interface{})) {
 		proxy.VerifYieldHook = h
 		auth.VerifYieldHook = h
